@@ -25,7 +25,7 @@ var twinKinds = []twinKind{
 	{"struct", "struct{ s int }", func(T string, n int) string { return fmt.Sprintf("%s{%d}", T, n) }, nil, "r.s"},
 	{"slice", "[]int", func(T string, n int) string { return fmt.Sprintf("%s{%d, 0}", T, n) }, func(T string) string { return T + "(nil)" }, "r[0]"},
 	{"map", "map[string]int", func(T string, n int) string { return fmt.Sprintf("%s{\"k\": %d}", T, n) }, func(T string) string { return T + "(nil)" }, "r[\"k\"]"},
-	{"func", "func() int", func(T string, n int) string { return fmt.Sprintf("%s(func() int { return %d })", T, n) }, nil, "r()"},
+	{"func", "func() int", func(T string, n int) string { return fmt.Sprintf("%s(func() int { return %d })", T, n) }, func(T string) string { return T + "(nil)" }, "r()"},
 	{"chan", "chan int", func(T string, n int) string { return fmt.Sprintf("mk%s(%d)", T, n) }, func(T string) string { return T + "(nil)" }, "cap(r)"},
 	{"array", "[2]int", func(T string, n int) string { return fmt.Sprintf("%s{%d, 1}", T, n) }, nil, "r[0]"},
 	{"basic", "int16", func(T string, n int) string { return fmt.Sprintf("%s(%d)", T, n) }, nil, "int(r)"},
@@ -46,8 +46,18 @@ type twinVal struct {
 	Nil  bool
 }
 
+// twinOpts: input classes of findings reported while building this generator. Each class is generated only once
+// its key is registered with status "fixed" in known_findings.json (i.e. the fix is in the tree under test);
+// until then the exact inputs are replayed from corpus/C09 (pending programs).
+type twinOpts struct {
+	BasicCommaOk  bool // corpus:commaok-assert-basic-kind-twins: v, ok := e.(T) between twins of basic kinds (bool, numbers, string)
+	BasicIfaceArg bool // corpus:basic-kind-arg-to-interface-param: f(v) with v of a named basic-kind type and a non-empty interface parameter
+}
+
+func (tk twinKind) basic() bool { return tk.name == "basic" || tk.name == "string" }
+
 // genTwinProg returns a program without hierarchy (differential against go/types + compiled Go only)
-func genTwinProg(r *vh.Rng, name string) *Prog {
+func genTwinProg(r *vh.Rng, name string, opts twinOpts) *Prog {
 	p := &Prog{Name: name, Comment: "twin types: named types sharing one underlying type"}
 	var twins []twinType
 	// 3..5 kinds, 2..3 twins each; struct kinds appear with value receivers and with pointer receivers
@@ -91,21 +101,31 @@ func genTwinProg(r *vh.Rng, name string) *Prog {
 			p.Decls = append(p.Decls, fmt.Sprintf("func mk%s(n int) %s { return make(%s, n) }", t.Name, t.Name, t.Name))
 		}
 	}
-	// values that implement the interfaces
+	// values that implement the interfaces, held in package-level variables (a constant operand such as T(nil) or
+	// T(1) converted to an interface is a different code path, not this property)
 	var vals []twinVal
+	addVal := func(expr, typ string, twin int, isNil bool) {
+		name := fmt.Sprintf("w%d", len(vals))
+		if isNil {
+			p.Vars = append(p.Vars, fmt.Sprintf("var %s %s", name, typ))
+		} else {
+			p.Vars = append(p.Vars, fmt.Sprintf("var %s %s = %s", name, typ, expr))
+		}
+		vals = append(vals, twinVal{name, typ, twin, isNil})
+	}
 	for i, t := range twins {
 		tk := twinKinds[t.Kind]
 		n := 1 + r.Intn(8)
 		if t.PtrRecv {
-			vals = append(vals, twinVal{"&" + tk.lit(t.Name, n), "*" + t.Name, i, false})
-			vals = append(vals, twinVal{"(*" + t.Name + ")(nil)", "*" + t.Name, i, true})
+			addVal("&"+tk.lit(t.Name, n), "*"+t.Name, i, false)
+			addVal("", "*"+t.Name, i, true)
 		} else {
-			vals = append(vals, twinVal{tk.lit(t.Name, n), t.Name, i, false})
+			addVal(tk.lit(t.Name, n), t.Name, i, false)
 			if tk.name == "struct" {
-				vals = append(vals, twinVal{"&" + tk.lit(t.Name, n), "*" + t.Name, i, false})
+				addVal("&"+tk.lit(t.Name, n), "*"+t.Name, i, false)
 			}
 			if tk.nilLit != nil && r.Chance(1, 2) {
-				vals = append(vals, twinVal{tk.nilLit(t.Name), t.Name, i, true})
+				addVal("", t.Name, i, true)
 			}
 		}
 	}
@@ -156,8 +176,16 @@ func genTwinProg(r *vh.Rng, name string) *Prog {
 		}
 		target := cand[r.Intn(len(cand))]
 		decl := fmt.Sprintf("var e %s = %s", tag, v.Expr)
-		desc := fmt.Sprintf("%s(%s).(%s)", tag, v.Expr, target)
-		switch r.Intn(6) {
+		vdesc := v.Expr + ":" + v.Type
+		if v.Nil {
+			vdesc += "=nil"
+		}
+		desc := fmt.Sprintf("%s(%s).(%s)", tag, vdesc, target)
+		form := r.Intn(6)
+		if basic := twinKinds[twins[v.Twin].Kind].basic(); basic && ((form <= 2 && !opts.BasicCommaOk) || (form == 4 && !opts.BasicIfaceArg)) {
+			form = 3 + 2*r.Intn(2) // single-value assertion or type switch
+		}
+		switch form {
 		case 0, 1, 2: // comma-ok
 			add("twin-assert2", "twin assert2 "+desc,
 				fmt.Sprintf("\t%s\n\tx, ok := e.(%s)\n\tif ok { return fmt.Sprint(\"ok|\", %s) }\n\treturn fmt.Sprint(\"no|\", %s)", decl, target, use("x", tag, v.Nil), zeroUse(target, twins)))
@@ -168,29 +196,35 @@ func genTwinProg(r *vh.Rng, name string) *Prog {
 			other := cand[r.Intn(len(cand))]
 			add("twin-classify", "twin classify "+desc+" then "+other,
 				fmt.Sprintf("\tclassify := func(e %s) string {\n\t\tif _, ok := e.(%s); ok { return \"first\" }\n\t\tif _, ok := e.(%s); ok { return \"second\" }\n\t\treturn \"other\"\n\t}\n\treturn classify(%s)", tag, target, other, v.Expr))
-		default: // type switch over 2..4 single-type clauses in random order, default anywhere
+		default: // type switch over 2..4 single-type clauses in random order; either the variable is bound or there
+			// is a default clause (known finding corpus:typeswitch-bound-var-default-nonempty-iface: both at once panic)
 			n := 2 + r.Intn(3)
+			bind := r.Chance(1, 2)
 			var clauses []string
 			seen := map[string]bool{}
 			for j := 0; j < n; j++ {
 				t := cand[r.Intn(len(cand))]
-				if j == n-1 && !seen[v.Type] && r.Chance(2, 3) {
+				if j == n-1 && !seen[v.Type] && r.Chance(2, 3) && contains(targets, v.Type) {
 					t = v.Type // the matching clause, after its twins
-					if !contains(targets, t) {
-						continue
-					}
 				}
 				if seen[t] {
 					continue
 				}
 				seen[t] = true
-				clauses = append(clauses, fmt.Sprintf("case %s: return fmt.Sprint(\"%s|\", %s)", t, t, use("x", tag, v.Nil)))
+				if bind {
+					clauses = append(clauses, fmt.Sprintf("case %s: return fmt.Sprint(\"%s|\", %s)", t, t, use("x", tag, v.Nil)))
+				} else {
+					clauses = append(clauses, fmt.Sprintf("case %s: return \"%s\"", t, t))
+				}
 			}
-			def := "default: return \"default\""
-			at := r.Intn(len(clauses) + 1)
-			clauses = append(clauses[:at], append([]string{def}, clauses[at:]...)...)
-			add("twin-switch", "twin switch "+tag+"("+v.Expr+") {"+strings.Join(clauses, " ")+"}",
-				fmt.Sprintf("\t%s\n\tswitch x := e.(type) {\n\t%s\n\t}\n\treturn \"none\"", decl, strings.Join(clauses, "\n\t")))
+			head := "switch x := e.(type)"
+			if !bind {
+				head = "switch e.(type)"
+				at := r.Intn(len(clauses) + 1)
+				clauses = append(clauses[:at], append([]string{"default: return \"default\""}, clauses[at:]...)...)
+			}
+			add("twin-switch", "twin switch "+tag+"("+vdesc+") {"+strings.Join(clauses, " ")+"}",
+				fmt.Sprintf("\t%s\n\t%s {\n\t%s\n\t}\n\treturn \"none\"", decl, head, strings.Join(clauses, "\n\t")))
 		}
 	}
 	return p
